@@ -12,7 +12,7 @@ import subprocess
 import sys
 import tempfile
 import time
-from concurrent.futures import ThreadPoolExecutor
+from concurrent.futures import ProcessPoolExecutor, ThreadPoolExecutor
 
 VERIF = os.path.dirname(os.path.dirname(os.path.abspath(__file__)))
 REPO = os.environ.get("VERIF_REPO", "/repo")
@@ -43,6 +43,10 @@ def repo_hash():
         for f in sorted(fs):
             if f.endswith((".go", ".tsh")) or f in ("go.mod", "go.sum"):
                 files.append(os.path.join(root, f))
+    hdir = os.path.join(VERIF, "harness")
+    for f in sorted(os.listdir(hdir)):          # the harness source is part of what is built
+        if f.endswith(".go") or f == "go.mod":
+            h.update(b"harness/" + f.encode() + b"\0" + open(os.path.join(hdir, f), "rb").read() + b"\0")
     for f in sorted(files):
         h.update(os.path.relpath(f, REPO).encode() + b"\0")
         with open(f, "rb") as fh:
@@ -216,6 +220,14 @@ def chunks(xs, n):
 def pmap(f, xs, workers=NCPU):
     with ThreadPoolExecutor(max_workers=workers) as ex:
         return list(ex.map(f, xs))
+
+
+def pmap_proc(f, xs, workers=NCPU, chunksize=8):
+    """process-based map (fork-heavy work such as running many bash scripts)"""
+    if not xs:
+        return []
+    with ProcessPoolExecutor(max_workers=workers) as ex:
+        return list(ex.map(f, xs, chunksize=chunksize))
 
 
 def hexs(b):
